@@ -211,6 +211,24 @@ theorem C15_user_prevails (b : Builder) (xid : Bytes) (user : List Modifier) :
         some ((addCodes (paramRequestList (build b xid user)) cs).map (·.code))) :=
   user_prevails b xid user
 
+/-- **C15 (the last `WithRequestedOptions` prevails, membership form).** Whatever the
+builder and the earlier modifiers did, after a final `WithRequestedOptions(cs...)` the
+packet carries a parameter request list, every code of `cs` is in it, and so is every
+code that was requested before. -/
+theorem C15_requested_options_prevail (b : Builder) (xid : Bytes) (user : List Modifier)
+    (cs : List OptCode) :
+    ∃ l, (build b xid (user ++ [.withRequestedOptions cs])).opts.get optParamList = some l ∧
+      (∀ c ∈ cs, c.code ∈ l) ∧
+      (∀ d ∈ paramRequestList (build b xid user), d.code ∈ l) := by
+  refine ⟨_, (user_prevails b xid user).2.2.2.2.2.2.2.2.2 cs, ?_, ?_⟩
+  · intro c hc
+    exact List.mem_map.mpr ⟨c, addCodes_mem _ cs c hc, rfl⟩
+  · intro d hd
+    exact List.mem_map.mpr ⟨d, mem_addCodes_of_mem _ cs d hd, rfl⟩
+
+example : ∃ l, (build (.discovery [2,0,0,0,0,1]) [1,2,3,4] [.withRequestedOptions [⟨false, 33⟩]]).opts.get optParamList = some l ∧ (33 : UInt8) ∈ l ∧ (1 : UInt8) ∈ l := by
+  decide
+
 /-! ### The builders against RFC 2131 Table 5 (Dhcp/Spec/V4Client.lean)
 
 `NoWriteTable5 user`: no user modifier writes opcode, client address, flags or
